@@ -5,6 +5,9 @@ CONSTANTS
     Randoms <- TRandoms
     DenyIps <- TDenyIps
     DenyBelow <- TDenyBelow
+    HelloSizes <- THelloSizes
+    ZeroRandom <- TZero
+    ReadAtFirst = FALSE
 CONSTRAINT Furthest
 INVARIANT TraceInv
 POSTCONDITION Accepted
